@@ -153,7 +153,7 @@ def mc(module, cfgfile, must_fire=(), workers=None, timeout=1800, xmx='8g', extr
         raise Infra('TLC timeout on %s' % module)
     st['violated'] = bool(re.search(r'Error: (Invariant|Action property|Temporal properties|Deadlock)', out)) or \
         'is violated' in out
-    if 'distinct' not in st and not st['violated']:
+    if ('distinct' not in st and not st['violated']) or 'TLC threw an unexpected exception' in out:
         raise Infra('TLC failed on %s:\n%s' % (module, out[-3000:]))
     # action coverage: lines like  <Submit line 12, col 1 to line 14, col 30 of module X>: 12:345
     cov = {}
